@@ -238,6 +238,10 @@ def respPrep (x : RespIn) : Except PErr RespOut :=
             if !emptyBody then (none, true, true, keepAlive) else (none, false, false, keepAlive)
           else if !emptyBody then (none, false, false, false)
           else (none, false, false, keepAlive)
+    -- HTTP/1.0 without a length: the unchanged code clears only the *local* keep_alive; the flag
+    -- (probed from the source) says whether `resp.keep_alive` is cleared as well
+    let closeDelimited := !emptyBody && !wchunked && wlength.isNone
+    let keepAlive := if Gen.C02.closeDelimitedClearsKeepAlive && closeDelimited then false else keepAlive
     let cl := if emptyBody && shouldRemoveCL x.method x.status then none else p.cl
     let te := if emptyBody then false else te
     let ctDefault := !emptyBody && wlength != some 0 && !x.userCT
@@ -296,7 +300,8 @@ deriving Repr, DecidableEq
 def cascade (cfg : Http.Cfg) (msg : Http.Msg) (length : Option Nat) : View :=
   let upgraded := msg.upgrade && Http.supportedUpgrade msg.headers
   let method := if cfg.response then cfg.respMethod else msg.method
-  let emptyBody := Http.isEmptyBodyStatus msg.code || Http.isEmptyBodyMethod method
+  -- only a *response* to HEAD is bodiless; the request parser has no configured method
+  let emptyBody := Http.isEmptyBodyStatus msg.code || (cfg.response && Http.isEmptyBodyMethod cfg.respMethod)
   let lenPos := match length with | some n => n > 0 | none => false
   if !emptyBody && (lenPos || msg.chunked) then
     if !cfg.withBody then { framing := .none, hasPayload := true, upgraded := false }
@@ -504,7 +509,9 @@ def reqCore (x : ReqIn) : Except QErr ReqOut :=
     let bodySizeNonZero := if x.hasData then x.size != some 0 else false
     let writes := bodySizeNonZero || expect
     if writes && x.userCL == some none then .error .badCL else
-    .ok { cl, te, conn := none, ce := comp, expect, wchunked := chunked.isSome, wcompress := comp.isSome,
+    -- `_create_writer`: `if self.chunked is not None` (old) / `if self.chunked` (probed from the source)
+    let wchunked := if Gen.C02.writerChunksWhenNotNone then chunked.isSome else truthy chunked
+    .ok { cl, te, conn := none, ce := comp, expect, wchunked, wcompress := comp.isSome,
           writes, limit := if clPresent then cl else none }
 
 /-- `ClientRequest.__init__` + `_send` -/
